@@ -288,3 +288,7 @@ def run(ctx):
     r1_block_index(ctx)
     r2_tables(ctx)
     r3_chunk_table(ctx)
+
+
+from .selftest import for_families as _ff  # noqa: E402
+selftest = _ff(['slice', 'taint'])
